@@ -209,6 +209,8 @@ pub fn scenario(rng: &mut Rng, tier: Tier) -> Scenario {
             Op::NewEpoch
         } else if take(w_clock) {
             Op::ClockShift { delta: *rng.pick(&[1i64, 3600, 86_400, 1 << 33, -1, -86_400]) }
+        } else if rng.chance(1, 2) {
+            Op::EnvChange
         } else {
             Op::LoggerLevel { level: rng.below(5) as u8 }
         };
